@@ -690,3 +690,28 @@ pub fn deep_doc(kind: DeepKind, depth: usize) -> Vec<u8> {
 	}
 	v
 }
+
+/// An array of records: objects sharing a key sequence (in the same order), some
+/// with additional trailing members, some cut short, some empty - the shape of
+/// tabular data with optional fields. Values are small integers and strings.
+pub fn gen_records(rng: &mut Rng) -> crate::oracle::rfc8259::RVal {
+	use crate::oracle::rfc8259::RVal;
+	let width = 1 + rng.below(12);
+	let keys: Vec<String> = (0..width + 4).map(|j| if rng.chance(1, 6) { format!("cl\u{e9}{}", j) } else { format!("f{:02}", j) }).collect();
+	let n = [2usize, 3, 15, 16, 17, 24, 40][rng.below(7)];
+	let mut items = Vec::with_capacity(n);
+	for i in 0..n {
+		let len = match rng.below(8) {
+			0 => 0,
+			1 => width.saturating_sub(1 + rng.below(2)),
+			2 => width + 1 + rng.below(3),
+			_ => width,
+		};
+		let rec: Vec<(String, RVal)> = (0..len.min(keys.len())).map(|j| (keys[j].clone(), if (i + j) % 3 == 0 { RVal::Str(format!("v{}", i)) } else { RVal::Num((i * 31 + j).to_string()) })).collect();
+		items.push(RVal::Obj(rec));
+	}
+	if rng.chance(1, 4) {
+		items.insert(rng.below(items.len()), RVal::Num("7".into()));
+	}
+	RVal::Arr(items)
+}
